@@ -6,6 +6,7 @@ import KlogV.Lemmas.Calendar
 import KlogV.Lemmas.Patterns
 import KlogV.Props.Tables
 import KlogV.Props.Rx.Periods
+import KlogV.Props.Rx.Model
 namespace KlogV.C15
 
 /-- The day after a valid date has the next day number. -/
